@@ -17,13 +17,13 @@ def run(ctx):
                 "mutation followed by another call; distinct by (history, profile).")
     ctx.trusted += ["gamma materialisation", "reference encoders for import payloads"]
     runs = [
-        ("C05_2x2_sim", 2, 2, "simulate", 400 if not thorough else 6000, 12),
-        ("C05_2x2_d3", 2, 2, "bfs" if thorough else "simulate", 300, 3),
+        ("C05_2x2_sim", 2, 2, "simulate", 80 if not thorough else 1500, 12),
+        ("C05_2x2_d3", 2, 2, "bfs" if thorough else "simulate", 100, 3),
     ]
     if thorough:
         runs.append(("C05_2x1_d4", 2, 1, "bfs", None, None))
     else:
-        runs.append(("C05_2x1_d4", 2, 1, "simulate", 600, 4))
+        runs.append(("C05_2x1_d4", 2, 1, "simulate", 400, 4))
     for cfg, K, M, mode, num, depth in runs:
         r = ctx.generate("RoaringHist", cfg, mode=mode, num=num, depth=depth, timeout=1200)
         ctx.drive("bind/roaringb", "TestC05", beh=r.behaviours, env={"VERIF_K": K, "VERIF_M": M},
